@@ -58,7 +58,7 @@ def strategy(tier):
             case["H"] = draw(triplets(n1, n1, 2))
             case["J"] = draw(triplets(m1, n1, 2)) if m1 else []
             case["lam"] = draw(st.sampled_from([0.5, 1.0, 4.0, 10.0]))
-            case["delta"] = draw(st.sampled_from([0.1, 1.0, 5.0]))
+            case["delta"] = draw(st.sampled_from([0.1, 1.0, 5.0, 1e-3, 1e-6, 1e-9]))  # -lamb/(1+lamb*rho) is tiny for large dt
         elif kind == "unsym":
             case["T"] = draw(triplets(n, n, 3))
             case["diag"] = [draw(st.sampled_from([-1, 1])) * draw(st.integers(4, 40)) / 8.0 for _ in range(n)]
